@@ -26,7 +26,7 @@ CANARY = "VERIF_CANARY"
 class Unit:
     """One function under contract (target) verified against its contract with dfcc."""
 
-    def __init__(self, name, props, tu, roots, target, contracts, harness, replace=(), stops=(), unwind=None,
+    def __init__(self, name, props, tu, roots, target, contracts, harness=None, replace=(), stops=(), unwind=None,
                  defines=(), quick_defines=(), thorough_defines=(), tiers=("quick", "thorough"), replay=None,
                  kind="proof", bound_note="", timeout=None, extra_cbmc=(), loop_contracts=False, trusted=(),
                  note="", mutants=(), solver=None, object_bits=None, no_canary=False, known=()):
@@ -151,7 +151,17 @@ class Runner:
         with open(unit_c, "w") as f:
             f.write('#include "lowered.c"\n')
             f.write('#define VERIF_CANARY() __CPROVER_assert(0, "%s reachable")\n' % CANARY)
-            f.write('#include "%s"\n' % os.path.join(VERIF, unit.harness))
+            if unit.harness:
+                f.write('#include "%s"\n' % os.path.join(VERIF, unit.harness))
+            else:
+                # default harness: unconstrained arguments (the contract's requires clauses shape them), ghost init, call, canary
+                fi = fn_by_c[unit.target]
+                f.write("#ifndef VERIF_GHOST_INIT\n#define VERIF_GHOST_INIT()\n#endif\n")
+                f.write("void HARNESS(void) {\n")
+                for dcl in fi["pdecls"]:
+                    f.write("  %s;\n" % dcl)
+                f.write("  VERIF_GHOST_INIT();\n")
+                f.write("  %s(%s);\n  VERIF_CANARY();\n}\n" % (unit.target, ", ".join(fi["params"])))
         defs = list(unit.defines) + list(unit.quick_defines if self.tier == "quick" else unit.thorough_defines) + list(extra_defines)
         entry = "h_unit"
         cmd = ["goto-cc", "-I" + os.path.join(VERIF, "tools", "include"), "-I" + VERIF, "-I" + d,
@@ -179,6 +189,8 @@ class Runner:
             flags += ["--object-bits", str(unit.object_bits)]
         if unit.solver:
             flags += unit.solver if isinstance(unit.solver, list) else [unit.solver]
+        else:
+            flags += ["--sat-solver", "cadical"]   # measured: 17 s vs 345 s (MiniSat) on encode_offset64
         timeout = unit.timeout or (900 if self.tier == "quick" else 3600)
         mem = 12 if self.tier == "quick" else 24
         cbmc_cmd = ["cbmc", os.path.join(d, "b.gb")] + flags + ["--json-ui"]
@@ -206,6 +218,9 @@ class Runner:
         if unit.loop_contracts and not any("loop invariant" in p["description"].lower() for p in oblig):
             raise Undecided("loop contracts requested but no loop-invariant obligations generated for %s" % tag)
         failed = [p for p in oblig if p["status"] != "SUCCESS"]
+        unw = [p for p in failed if "unwinding assertion" in p["description"]]
+        if unw:
+            raise Undecided("unwinding bound %s too small in %s: %s" % (unit.unwind, tag, ", ".join(p["property"] for p in unw[:4])))
         res = {
             "unit": unit.name, "tag": tag, "target": unit.target, "dir": d,
             "obligations": len(oblig), "discharged": len(oblig) - len(failed), "postconditions": len(post),
@@ -284,8 +299,9 @@ class Runner:
             flat = {}
             flatten_value(lhs, val, flat)
             state.update(flat)
-            if snap is None and seen_params is not None and st.get("assignmentType") == "actual-parameter" and lhs in params:
-                seen_params.add(lhs)
+            base = re.split(r"[.\[]", lhs, 1)[0]
+            if snap is None and seen_params is not None and st.get("assignmentType") == "actual-parameter" and base in params:
+                seen_params.add(base)
                 if len(seen_params) == len(params):
                     snap = dict(state)
             if len(excerpt) < 2000 and not lhs.startswith("tmp_"):
@@ -297,6 +313,9 @@ class Runner:
         for p in params:
             if p in snap:
                 inputs[p] = snap[p]
+            for k, val in snap.items():
+                if k.startswith(p + ".") or k.startswith(p + "["):
+                    inputs[k] = val
         # pointees: parameter value like dynamic_object$10, &dynamic_object$9[0], &local!0@1
         for p in params:
             v = str(snap.get(p, ""))
